@@ -241,13 +241,18 @@ theorem Obs.ok_mono {sent : List (Int × S)} {o : Obs S} (h : Obs.ok sent o) (p 
       | none => exact h
       | some s => exact ⟨List.mem_cons_of_mem _ h.1, h.2⟩
 
+/-- the newest tick the sender has used after the event -/
+def nextLast {S : Type} (last : Option Int) : Ev S → Option Int
+  | .send t _ => some t
+  | _ => last
+
 /-- One event from a good state: the next state is good, `sent` only grows (by a snapshot with a
 newer tick), and the observation passes the C13 verdict. -/
 theorem step_safe (laws : Laws ops) {y : Sys S} (hg : Good ops y) {last : Option Int}
     (hlast : ∀ p, p ∈ y.sent → ∃ l, last = some l ∧ p.1 ≤ l) (e : Ev S) (rest : List (Ev S))
     (hs : sendsOk last (e :: rest)) {y' : Sys S} {o : Obs S} (h : y.step ops e = .ok (y', o)) :
     Good ops y' ∧ Obs.ok y'.sent o ∧ (∀ o', Obs.ok y.sent o' → Obs.ok y'.sent o') ∧
-      ∃ last', sendsOk last' rest ∧ ∀ p, p ∈ y'.sent → ∃ l, last' = some l ∧ p.1 ≤ l := by
+      sendsOk (nextLast last e) rest ∧ ∀ p, p ∈ y'.sent → ∃ l, nextLast last e = some l ∧ p.1 ≤ l := by
   cases e with
   | send tick snap =>
     obtain ⟨hi, hgt, hrest⟩ := hs
@@ -262,7 +267,7 @@ theorem step_safe (laws : Laws ops) {y : Sys S} (hg : Good ops y) {last : Option
         intro p hp
         obtain ⟨l, hl, hle⟩ := hlast p hp
         have := hgt l hl; omega
-      refine ⟨send_safe laws hg hi hnew hsend, trivial, fun o' ho' => Obs.ok_mono ho' _, some tick, hrest, ?_⟩
+      refine ⟨send_safe laws hg hi hnew hsend, trivial, fun o' ho' => Obs.ok_mono ho' _, hrest, ?_⟩
       intro p hp
       rcases List.mem_cons.mp hp with rfl | hp'
       · exact ⟨_, rfl, Int.le_refl _⟩
@@ -273,35 +278,35 @@ theorem step_safe (laws : Laws ops) {y : Sys S} (hg : Good ops y) {last : Option
     | none =>
       simp only [hm, Outcome.ok.injEq, Prod.mk.injEq] at h
       obtain ⟨rfl, rfl⟩ := h
-      exact ⟨hg, trivial, fun _ h => h, last, hs, hlast⟩
+      exact ⟨hg, trivial, fun _ h => h, hs, hlast⟩
     | some m =>
       simp only [hm, Outcome.ok.injEq, Prod.mk.injEq] at h
       obtain ⟨rfl, rfl⟩ := h
       obtain ⟨g, ob⟩ := deliver_safe laws hg (List.mem_of_getElem? hm)
-      exact ⟨g, ob, fun _ h => h, last, hs, hlast⟩
+      exact ⟨g, ob, fun _ h => h, hs, hlast⟩
   | ack =>
     simp only [Sys.step, Outcome.ok.injEq, Prod.mk.injEq] at h
     obtain ⟨rfl, rfl⟩ := h
-    exact ⟨{ hg with }, trivial, fun _ h => h, last, hs, hlast⟩
+    exact ⟨{ hg with }, trivial, fun _ h => h, hs, hlast⟩
   | deliverAck j =>
     simp only [Sys.step] at h
     cases hv : y.acks[j]? with
     | none =>
       simp only [hv, Outcome.ok.injEq, Prod.mk.injEq] at h
       obtain ⟨rfl, rfl⟩ := h
-      exact ⟨hg, trivial, fun _ h => h, last, hs, hlast⟩
+      exact ⟨hg, trivial, fun _ h => h, hs, hlast⟩
     | some v =>
       simp only [hv, Outcome.ok.injEq, Prod.mk.injEq] at h
       obtain ⟨rfl, rfl⟩ := h
-      exact ⟨setDeltaTick_safe hg v, trivial, fun _ h => h, last, hs, hlast⟩
+      exact ⟨setDeltaTick_safe hg v, trivial, fun _ h => h, hs, hlast⟩
   | forgedAck v =>
     simp only [Sys.step, Outcome.ok.injEq, Prod.mk.injEq] at h
     obtain ⟨rfl, rfl⟩ := h
-    exact ⟨setDeltaTick_safe hg v, trivial, fun _ h => h, last, hs, hlast⟩
+    exact ⟨setDeltaTick_safe hg v, trivial, fun _ h => h, hs, hlast⟩
   | clientReset =>
     simp only [Sys.step, Outcome.ok.injEq, Prod.mk.injEq] at h
     obtain ⟨rfl, rfl⟩ := h
-    exact ⟨reset_safe hg, trivial, fun _ h => h, last, hs, hlast⟩
+    exact ⟨reset_safe hg, trivial, fun _ h => h, hs, hlast⟩
 
 theorem run_safe (laws : Laws ops) : ∀ (evs : List (Ev S)) (y : Sys S) (last : Option Int),
     Good ops y → (∀ p, p ∈ y.sent → ∃ l, last = some l ∧ p.1 ≤ l) → sendsOk last evs →
@@ -328,12 +333,125 @@ theorem run_safe (laws : Laws ops) : ∀ (evs : List (Ev S)) (y : Sys S) (last :
         obtain ⟨y2, os⟩ := r2
         simp only [hrun, Outcome.ok.injEq, Prod.mk.injEq] at h
         obtain ⟨rfl, rfl⟩ := h
-        obtain ⟨g1, ob1, mono1, last', hs', hlast'⟩ := step_safe laws hg hlast e rest hs hstep
-        obtain ⟨g2, obs2, mono2⟩ := ih y1 last' g1 hlast' hs' y2 os hrun
+        obtain ⟨g1, ob1, mono1, hs', hlast'⟩ := step_safe laws hg hlast e rest hs hstep
+        obtain ⟨g2, obs2, mono2⟩ := ih y1 (nextLast last e) g1 hlast' hs' y2 os hrun
         refine ⟨g2, ?_, fun o' h => mono2 o' (mono1 o' h)⟩
         intro o ho
         rcases List.mem_cons.mp ho with rfl | ho'
         · exact mono2 _ ob1
+        · exact obs2 o ho'
+
+/-! ### histories with the builder and the free list (`SysB`) -/
+
+theorem ObsB.ok_of_mono {sent sent' : List (Int × S)}
+    (mono : ∀ o', Obs.ok sent o' → Obs.ok sent' o') {o : ObsB S} (h : ObsB.ok sent o) : ObsB.ok sent' o := by
+  cases o with
+  | obs o => exact mono o h
+  | builderError e => trivial
+
+theorem stepB_safe {I : Type} (laws : Laws ops) (b : BuildOps S I) {y : SysB S} (hg : Good ops y.sys)
+    {last : Option Int} (hlast : ∀ p, p ∈ y.sys.sent → ∃ l, last = some l ∧ p.1 ≤ l)
+    (e : EvB S I) (rest : List (EvB S I)) (hs : sendsOkB last (e :: rest)) {y' : SysB S} {o : ObsB S}
+    (h : y.step ops b e = .ok (y', o)) :
+    Good ops y'.sys ∧ ObsB.ok y'.sys.sent o ∧ (∀ o', Obs.ok y.sys.sent o' → Obs.ok y'.sys.sent o') ∧
+      ∃ last', sendsOkB last' rest ∧ ∀ p, p ∈ y'.sys.sent → ∃ l, last' = some l ∧ p.1 ≤ l := by
+  -- a send of a ready-made snapshot, shared by the two send cases
+  have send_case : ∀ (tick : Int) (snap : S) (sys' : Sys S) (o' : Obs S),
+      inI32 tick → (∀ l, last = some l → l < tick) →
+      y.sys.step ops (.send tick snap) = .ok (sys', o') →
+      Good ops sys' ∧ Obs.ok sys'.sent o' ∧ (∀ o'', Obs.ok y.sys.sent o'' → Obs.ok sys'.sent o'') ∧
+        ∀ p, p ∈ sys'.sent → ∃ l, some tick = some l ∧ p.1 ≤ l := by
+    intro tick snap sys' o' hi hgt hstep
+    obtain ⟨g, ob, mono, _, hb⟩ := step_safe laws hg hlast (.send tick snap) [] ⟨hi, hgt, trivial⟩ hstep
+    exact ⟨g, ob, mono, hb⟩
+  cases e with
+  | sendItems tick items =>
+    obtain ⟨hi, hgt, hrest⟩ := hs
+    simp only [SysB.step] at h
+    cases hb : b.build (y.seed b) items with
+    | panic s => simp [hb] at h
+    | ok r =>
+      cases r with
+      | error e =>
+        simp only [hb, Outcome.ok.injEq, Prod.mk.injEq] at h
+        obtain ⟨rfl, rfl⟩ := h
+        refine ⟨hg, trivial, fun _ h => h, some tick, hrest, ?_⟩
+        intro p hp
+        obtain ⟨l, hl, hle⟩ := hlast p hp
+        have := hgt l hl
+        exact ⟨tick, rfl, by omega⟩
+      | ok snap =>
+        simp only [hb] at h
+        cases hstep : y.sys.step ops (.send tick snap) with
+        | panic s => simp [hstep] at h
+        | ok r2 =>
+          obtain ⟨sys', o'⟩ := r2
+          simp only [hstep, Outcome.ok.injEq, Prod.mk.injEq] at h
+          obtain ⟨rfl, rfl⟩ := h
+          obtain ⟨g, ob, mono, hb'⟩ := send_case tick snap sys' o' hi hgt hstep
+          exact ⟨g, ob, mono, some tick, hrest, hb'⟩
+  | other e =>
+    simp only [SysB.step] at h
+    cases hstep : y.sys.step ops e with
+    | panic s => simp [hstep] at h
+    | ok r2 =>
+      obtain ⟨sys', o'⟩ := r2
+      simp only [hstep, Outcome.ok.injEq, Prod.mk.injEq] at h
+      obtain ⟨rfl, rfl⟩ := h
+      cases e with
+      | send tick snap =>
+        obtain ⟨hi, hgt, hrest⟩ := hs
+        obtain ⟨g, ob, mono, hb'⟩ := send_case tick snap sys' o' hi hgt hstep
+        exact ⟨g, ob, mono, some tick, hrest, hb'⟩
+      | deliver i =>
+        obtain ⟨g, ob, mono, _, hb'⟩ := step_safe laws hg hlast (.deliver i) [] trivial hstep
+        exact ⟨g, ob, mono, last, hs, hb'⟩
+      | ack =>
+        obtain ⟨g, ob, mono, _, hb'⟩ := step_safe laws hg hlast .ack [] trivial hstep
+        exact ⟨g, ob, mono, last, hs, hb'⟩
+      | deliverAck j =>
+        obtain ⟨g, ob, mono, _, hb'⟩ := step_safe laws hg hlast (.deliverAck j) [] trivial hstep
+        exact ⟨g, ob, mono, last, hs, hb'⟩
+      | forgedAck v =>
+        obtain ⟨g, ob, mono, _, hb'⟩ := step_safe laws hg hlast (.forgedAck v) [] trivial hstep
+        exact ⟨g, ob, mono, last, hs, hb'⟩
+      | clientReset =>
+        obtain ⟨g, ob, mono, _, hb'⟩ := step_safe laws hg hlast .clientReset [] trivial hstep
+        exact ⟨g, ob, mono, last, hs, hb'⟩
+
+theorem runB_safe {I : Type} (laws : Laws ops) (b : BuildOps S I) :
+    ∀ (evs : List (EvB S I)) (y : SysB S) (last : Option Int),
+    Good ops y.sys → (∀ p, p ∈ y.sys.sent → ∃ l, last = some l ∧ p.1 ≤ l) → sendsOkB last evs →
+    ∀ y' obs, SysB.run ops b y evs = .ok (y', obs) →
+      Good ops y'.sys ∧ (∀ o, o ∈ obs → ObsB.ok y'.sys.sent o) ∧
+        (∀ o', Obs.ok y.sys.sent o' → Obs.ok y'.sys.sent o') := by
+  intro evs
+  induction evs with
+  | nil =>
+    intro y last hg _ _ y' obs h
+    simp only [SysB.run, Outcome.ok.injEq, Prod.mk.injEq] at h
+    obtain ⟨rfl, rfl⟩ := h
+    exact ⟨hg, fun o ho => by simp at ho, fun _ h => h⟩
+  | cons e rest ih =>
+    intro y last hg hlast hs y' obs h
+    simp only [SysB.run] at h
+    cases hstep : y.step ops b e with
+    | panic s => simp [hstep] at h
+    | ok r1 =>
+      obtain ⟨y1, o1⟩ := r1
+      simp only [hstep] at h
+      cases hrun : SysB.run ops b y1 rest with
+      | panic s => simp [hrun] at h
+      | ok r2 =>
+        obtain ⟨y2, os⟩ := r2
+        simp only [hrun, Outcome.ok.injEq, Prod.mk.injEq] at h
+        obtain ⟨rfl, rfl⟩ := h
+        obtain ⟨g1, ob1, mono1, last', hs', hlast'⟩ := stepB_safe laws b hg hlast e rest hs hstep
+        obtain ⟨g2, obs2, mono2⟩ := ih y1 last' g1 hlast' hs' y2 os hrun
+        refine ⟨g2, ?_, fun o' h => mono2 o' (mono1 o' h)⟩
+        intro o ho
+        rcases List.mem_cons.mp ho with rfl | ho'
+        · exact ObsB.ok_of_mono mono2 ob1
         · exact obs2 o ho'
 
 end Tw.SnapMgr
